@@ -20,7 +20,8 @@ for pid in ALL:
         "engine": "lean-proof+correspondence",
         "level_claimed": {
             "category": "proof",
-            "text": c.get("level_text", "Lean 4 theorems about the hand-written model (all inputs, no bound), tied to /repo by the correspondence check on every run."),
+            "text": c.get("level_text", "Lean 4 theorems about the hand-written model (all inputs, no bound), tied to /repo by the correspondence check on every run.")
+                    + ((" Translator tie (DESIGN.md §3.5): the functions this property rests on are regenerated from /repo/src into Lean on every run and proved equal to the model, with property corollaries stated directly on the regenerated code (modules " + ", ".join(m.split(".")[-1] for m in c["srctie"]) + "; theorems src_*).") if c.get("srctie") else ""),
             "design_ref": c.get("design_ref", "DESIGN.md §5"),
         },
         "level_note": c.get("level_note", "Trusted: Lean kernel; axioms propext/Classical.choice/Quot.sound only; the model-to-code tie is the sampled correspondence check (harness + gmodel); codec crates, std and rayon are modelled by their contracts."),
